@@ -152,6 +152,12 @@ def suite_kernels(tier: str, seed: int, mult: int) -> SuiteResult:
             cnt["unpack"] += 1
             if not np.array_equal(K.unpack(Xa), fpmod.unpack_fingerprints(X)):
                 fail("C13:unpack-differs", f"nbytes={nbytes}", {"bytes": nbytes})
+            if nbytes > 1:
+                # fewer features than the row holds (a multiple of 8, the only case the kernel accepts): both truncate
+                nf8 = 8 * rng.randint(1, nbytes - 1)
+                if not np.array_equal(K.unpack(Xa, nf8), fpmod.unpack_fingerprints(X, nf8)) \
+                        or not np.array_equal(K.unpack(Xa[0], nf8), fpmod.unpack_fingerprints(X[0], nf8)):
+                    fail("C13:unpack-with-n_features-differs", f"nbytes={nbytes} n_features={nf8}", {"bytes": nbytes, "n_features": nf8})
             # array-vs-vector Tanimoto
             y = placed(X[rng.randrange(n)] if rng.random() < 0.5 else np.packbits((nrng.random(nbytes * 8) < 0.5).astype(np.uint8)),
                        rng.choice([0, 0, 2, 5]))
